@@ -4,6 +4,7 @@ from . import common as C, gen_int as G, oracles as O
 LEAN_MODULE = "Urandom.Props.C14"
 RULE = ("requests: Bernoulli::new(p).sample and Random::chance(p) for p in every class (+-0, subnormal, 1-ulp, 1, >1, +-inf, NaN payloads, negative, random, and p equal to / "
         "one ulp either side of the Float01 value the scripted words produce) x word pairs over all leading-zero classes; monotonicity checked on pairs p<q over the same words. "
+        "extra: the probability clause exactly on the implementation - the measure of the set of word pairs giving true, by nested interval search with real calls, against p (tolerance p*2^-52 + 2^-64). "
         "non-trivial = all; distinct = distinct request line")
 ASSUMPTIONS = []
 
@@ -24,3 +25,78 @@ def classify(req, model):
 
 def oracle(req, impl, build):
     return O.bern_oracle(req, impl)
+
+
+def extra(binary, build, tier, rng):
+    """the probability clause, exactly, on the implementation: for a fixed p the outcome is a monotone function of the two words, so the set
+    of (first word, second word) pairs giving `true` is found by nested interval search with real calls and its measure is compared with p:
+    |P(true) - p| <= p*2^-52 + 2^-64."""
+    from fractions import Fraction
+    from .preimage_oracle import Prober, steps
+    from .oracles import parse_ok
+    import struct
+    B = 1 << 64
+    def bits(x):
+        return struct.unpack("<Q", struct.pack("<d", x))[0]
+    ps = [bits(1 / 3), bits(1.5 * 2.0 ** -53), bits(1e-18), bits(1 - 2.0 ** -53)] if tier == "quick" else \
+        [bits(x) for x in (0.5, 1 / 3, 0.1, 0.9, 1e-3, 2.0 ** -20, 1e-10, 2.0 ** -52, 2.0 ** -53, 1.5 * 2.0 ** -53, 1e-16, 1e-18, 2.0 ** -63, 1.5 * 2.0 ** -64,
+                               2.0 ** -64, 1 - 2.0 ** -53, 0.999, 2.2e-16, 2.3e-16, 1e-15)] + [bits(rng.bits(53) / float(1 << 53) * 2.0 ** -rng.below(60)) for _ in range(8)]
+    calls = 0
+    for i, pb in enumerate(ps):
+        via = ("chance", "sample")[i % 2] if (tier == "quick" and i not in (1, 2)) else None
+        for v in ([via] if via else ["chance", "sample"]):
+            pval = Fraction(struct.unpack("<d", struct.pack("<Q", pb))[0])
+            mk2 = lambda w1, w2: "bern p=%d via=%s n=1 words=%d,%d" % (pb, v, w1, w2)
+            cache = {}
+            def g(w1):
+                """number of second words giving true (assumed a prefix [0, T) of the second word: validated below)"""
+                if w1 in cache:
+                    return cache[w1]
+                p2 = Prober(binary, lambda w2: mk2(w1, w2), lambda res: (parse_ok(res) or ["?"])[0])
+                if p2.one(0) != "1":
+                    t = 0
+                elif p2.one(B - 1) == "1":
+                    t = B
+                else:
+                    lo, hi = 0, B - 1          # true at lo, false at hi
+                    while hi - lo > 1:
+                        mid = (lo + hi) // 2
+                        if p2.one(mid) == "1":
+                            lo = mid
+                        else:
+                            hi = mid
+                    t = hi
+                cache[w1] = (t, p2.calls)
+                return cache[w1]
+            class G:
+                calls = 0
+                def one(self, w1):
+                    t, c = g(w1)
+                    return t
+            gp = G()
+            runs = steps(gp, 0, B - 1, max_steps=80)
+            calls += sum(c for (_, c) in cache.values())
+            if runs is None:
+                yield {"kind": "note", "text": "chance(p=%#x): the number of true second words is not a small step function of the first word - measure inconclusive" % pb}
+                continue
+            # validation: monotone structure holds at random points
+            ok = True
+            pv = Prober(binary, lambda pair: mk2(pair[0], pair[1]), lambda res: (parse_ok(res) or ["?"])[0])
+            for first, last, t in runs:
+                for _ in range(4):
+                    w1 = first + rng.below(last - first + 1)
+                    w2 = rng.below(B)
+                    if pv.one((w1, w2)) != ("1" if w2 < t else "0"):
+                        ok = False
+            calls += pv.calls
+            if not ok:
+                yield {"kind": "note", "text": "chance(p=%#x): outcome is not monotone in the words - measure inconclusive" % pb}
+                continue
+            measure = Fraction(sum((last - first + 1) * t for first, last, t in runs), B * B)
+            tol = pval * Fraction(1, 1 << 52) + Fraction(1, 1 << 64)
+            if abs(measure - pval) > tol:
+                wit = next(((first, t) for first, last, t in runs if t not in (0, B)), (runs[0][0], runs[0][2]))
+                yield {"kind": "oracle", "build": build, "request": mk2(wit[0], max(0, wit[1] - 1)), "impl": "runs (first word from, to, true second words): %s" % str(runs[:6]), "model": "",
+                       "oracle": "P(%s(p) = true) over uniformly distributed word pairs is %.6e for p = %.6e: off by %.3e, allowed %.3e (p*2^-52 + 2^-64)" % (
+                           "chance" if v == "chance" else "Bernoulli::sample", float(measure), float(pval), float(abs(measure - pval)), float(tol))}
+    yield {"kind": "count", "what": "measure-search-probes", "n": calls}
